@@ -3,7 +3,10 @@
 package command
 
 import (
+	"context"
 	"fmt"
+	"github.com/v-byte-cpu/sx/pkg/scan"
+	"math/rand"
 	"net"
 	"strings"
 	"testing"
@@ -231,5 +234,109 @@ func TestC02Exclusion(t *testing.T) {
 			v.NonTrivial = len(want) > 0 && len(want) < len(all)
 			return v
 		},
+	})
+}
+
+// ---------------------------------------------------------------- exclusion over wide subnets (generator level)
+
+type c02WideCase struct {
+	CIDR    string   `json:"cidr"`
+	Exclude []string `json:"exclude"`
+	Port    bool     `json:"with_one_port"`
+	Seed    int64    `json:"rand_seed"`
+}
+
+func c02WideCheck(c c02WideCase) *kit.Verdict {
+	v := &kit.Verdict{}
+	p, ok := gram.RefIPv4Target(c.CIDR)
+	if !ok {
+		return v.Failf("harness: cidr")
+	}
+	v.Label("prefix=/%d", p.Bits)
+	v.Units = int(p.Size())
+	var excl []gram.Prefix
+	for _, l := range c.Exclude {
+		q, ok := gram.RefIPv4Target(l)
+		if !ok {
+			return v.Failf("harness: exclusion %q", l)
+		}
+		excl = append(excl, q)
+	}
+	container, err := parseExcludeFile(c18Open(strings.Join(c.Exclude, "\n") + "\n"))
+	if err != nil {
+		return v.Failf("exclusion file refused: %v", err)
+	}
+	_, ipnet, _ := net.ParseCIDR(c.CIDR)
+	r := &scan.Range{DstSubnet: ipnet, SrcIP: net.IP{10, 250, 0, 1}}
+	var reqgen scan.RequestGenerator = scan.NewIPRequestGenerator(scan.NewIPGenerator())
+	if c.Port {
+		r.Ports = []*scan.PortRange{{StartPort: 443, EndPort: 443}}
+		reqgen = scan.NewIPPortGenerator(scan.NewIPGenerator(), scan.NewPortGenerator())
+	}
+	reqgen = scan.NewFilterIPRequestGenerator(reqgen, container)
+	rand.Seed(c.Seed)
+	ctx, cancel := context.WithCancel(context.Background())
+	defer cancel()
+	ch, err := reqgen.GenerateRequests(ctx, r)
+	if err != nil {
+		return v.Failf("generator: %v", err)
+	}
+	seen := make([]uint8, p.Size())
+	for q := range ch {
+		if q.Err != nil {
+			return v.Failf("%s: error request %v", c.CIDR, q.Err)
+		}
+		ip4 := q.DstIP.To4()
+		if ip4 == nil || !p.Contains(gram.BytesU32(ip4)) {
+			return v.Failf("%s: request for %v outside the target", c.CIDR, q.DstIP)
+		}
+		if seen[gram.BytesU32(ip4)-p.Base] < 3 {
+			seen[gram.BytesU32(ip4)-p.Base]++
+		}
+	}
+	nex := 0
+	for i := range seen {
+		a := p.Base + uint32(i)
+		want := uint8(1)
+		if gram.Excluded(excl, a) {
+			want = 0
+			nex++
+		}
+		if seen[i] != want {
+			return v.Failf("target %s with exclusions %v: %s was requested %d times, expected %d (excluded=%v)", c.CIDR, c.Exclude, gram.U32String(a), seen[i], want, want == 0)
+		}
+	}
+	v.NonTrivial = nex > 0 && nex < len(seen)
+	return v
+}
+
+func TestC02ExclusionWide(t *testing.T) {
+	kit.Run(t, kit.Spec[c02WideCase]{
+		Prop: "C02",
+		Rule: "generator level: real IP (x one port) request generator behind the real exclusion filter (container from parseExcludeFile) over a /18../13 subnet (16 Ki .. 512 Ki destinations) with 1..5 exclusion entries inside it (hosts, /31../14 blocks, first and last block of the subnet); per-address counters: excluded => never requested, every other address exactly once. non-trivial: some but not all addresses excluded; distinct by case",
+		Gen: func(t *rapid.T) c02WideCase {
+			bits := rapid.SampledFrom([]int{18, 16, 15, 15, 14, 13}).Draw(t, "bits")
+			a := uint32(kit.UniformInt64(t, "base", 0, 1<<32-1)) >> uint(32-bits) << uint(32-bits)
+			c := c02WideCase{CIDR: fmt.Sprintf("%s/%d", gram.U32String(a), bits), Port: rapid.Bool().Draw(t, "port"), Seed: rapid.Int64().Draw(t, "seed")}
+			size := uint32(1) << uint(32-bits)
+			for i := 0; i < rapid.IntRange(1, 5).Draw(t, "nexcl"); i++ {
+				off := uint32(kit.Uniform(t, "off", int(size)))
+				switch rapid.IntRange(0, 4).Draw(t, "kind") {
+				case 0:
+					c.Exclude = append(c.Exclude, gram.U32String(a+off))
+				case 1:
+					eb := rapid.IntRange(bits+1, 31).Draw(t, "exbits")
+					c.Exclude = append(c.Exclude, fmt.Sprintf("%s/%d", gram.U32String((a+off)>>uint(32-eb)<<uint(32-eb)), eb))
+				case 2:
+					c.Exclude = append(c.Exclude, fmt.Sprintf("%s/%d", gram.U32String(a+size/2), bits+1)) // the upper half
+				case 3:
+					c.Exclude = append(c.Exclude, fmt.Sprintf("%s/24", gram.U32String(a+size-256))) // the last /24
+				default:
+					c.Exclude = append(c.Exclude, fmt.Sprintf("%s/30", gram.U32String(a))) // the first four
+				}
+			}
+			return c
+		},
+		Check: c02WideCheck,
 	})
 }
